@@ -4,5 +4,5 @@ for d in /tmp/seedout/*/a /tmp/seedout/*/b; do
   id=$(basename $(dirname $d))
   case " $SKIP " in *" $id "*) continue;; esac
   printf "%s/%s: " $id $(basename $d)
-  /verif/seedtest.sh $d/patch.diff $id 2>&1 | grep -E '^(OK|FAIL|UNDEC|patch)' | cut -c1-230
+  /verif/dev/seedtest.sh $d/patch.diff $id 2>&1 | grep -E '^(OK|FAIL|UNDEC|patch)' | cut -c1-230
 done
